@@ -100,6 +100,11 @@ def expected_error_details(sec, reg):
 
 def check_error_details(entry, sec, reg, problems, where):
     r = expected_error_details(sec, reg)
+    if r is None and isinstance(entry, dict) and entry.get("Error Details"):
+        # no registry entry is defined for exactly this type / reason code: nothing may be borrowed from a similar one
+        problems.append(("Error Details", "%s: the registry defines no message for %s/%r, yet Error Details shows %r" %
+                         (where, sec.m["type"], sec.m["ascii"][4:8], str(entry.get("Error Details"))[:160])))
+        return True
     if r is None or not r["message"]:
         return False
     det = entry.get("Error Details")
